@@ -294,6 +294,7 @@ STR_AXIOMS = [
     ("contains_cat", "(forall ((p Str) (d Str) (i Str)) (! (contains (cat (cat p d) i) d) :pattern ((cat (cat p d) i))))"),
     ("contains_self", "(forall ((d Str)) (! (contains d d) :pattern ((contains d d))))"),
     ("first_occ_len1", "(forall ((p Str) (d Str)) (! (=> (= (slen d) 1) (= (first_occ p d) (not (contains p d)))) :pattern ((first_occ p d))))"),
+    ("rsplit_recompose", "(forall ((u Str) (d Str)) (! (=> (and (not (= d empty)) (contains u d)) (= (cat (cat (rpart_before u d) d) (rpart_after u d)) u)) :pattern ((rpart_before u d)) :pattern ((rpart_after u d))))"),
     ("cat_assoc", "(forall ((a Str) (b Str) (c Str)) (! (= (cat (cat a b) c) (cat a (cat b c))) :pattern ((cat (cat a b) c))))"),
 ]
 
@@ -337,6 +338,9 @@ def skolemized_negation(ax):
 
 def axiom_proof_query(ax):
     return "(set-logic ALL)\n" + STR_SIG_S + "\n" + skolemized_negation(ax) + "\n(check-sat)\n"
+
+
+ASSUMED_AXIOMS = {"rsplit_recompose"}      # no SMT-LIB counterpart of rsplit: assumed contract of str.rsplit(d, 1)
 
 
 def str_axioms_text(names=None):
